@@ -10,7 +10,8 @@
  *
  * Oracle (implementation only, no model): every run on the reused object must give the status and the
  * bytes that the same run gives on a NEW object on which exactly the setter calls made so far have been
- * replayed in order.  Response: one token per run, "=" or "DIFF:<reused status>/<n bytes>:<fresh status>/<n bytes>".
+ * replayed in order.  Response: one token per run, "=:<status>/<n bytes>/<fnv1a>" or
+ * "DIFF:<reused status>/<n bytes>:<fresh status>/<n bytes>".
  */
 #include "hx.h"
 #include "wbxml.h"
@@ -79,8 +80,15 @@ int main(void)
                     r2 = wbxml_conv_xml2wbxml_run(f, doc, (WB_ULONG)n, &o2, &l2);
                     wbxml_conv_xml2wbxml_destroy(f);
                 }
-                if (r1 == r2 && l1 == l2 && (l1 == 0 || (o1 && o2 && !memcmp(o1, o2, l1)))) printf(" =");
-                else printf(" DIFF:%d/%lu:%d/%lu", (int)r1, (unsigned long)l1, (int)r2, (unsigned long)l2);
+                {
+                    /* the reused object's answer in absolute terms too (status/length/FNV-1a), so that it can be
+                     * compared with the same run made alone in a NEW PROCESS: state kept outside the objects
+                     * (errno, statics) is shared by the reused and the fresh object of this process */
+                    unsigned long h = 2166136261UL; WB_ULONG q;
+                    for (q = 0; o1 && q < l1; q++) { h ^= o1[q]; h = (h * 16777619UL) & 0xffffffffUL; }
+                    if (r1 == r2 && l1 == l2 && (l1 == 0 || (o1 && o2 && !memcmp(o1, o2, l1)))) printf(" =:%d/%lu/%lu", (int)r1, (unsigned long)l1, h);
+                    else printf(" DIFF:%d/%lu:%d/%lu", (int)r1, (unsigned long)l1, (int)r2, (unsigned long)l2);
+                }
                 (void)first;
                 if (o1) wbxml_free(o1);
                 if (o2) wbxml_free(o2);
